@@ -759,6 +759,8 @@ func c02Boundary(c *Ctx, ro *c02Roles) bool {
 		return true
 	}
 	pfi := w.Info(ro.P)
+	// the helper cut inside the name test: it is entered with a plugin named only (c02NamedEntry)
+	entry := c02NamedEntry(ro)
 	// lookup-error
 	sx := pfi.summarizeFrom(Mode{Kind: mErr}, []state{{ro.lcall.Block().Index, 0, -1}}, nil)
 	c.Evals += sx.States
@@ -815,6 +817,10 @@ func c02Boundary(c *Ctx, ro *c02Roles) bool {
 	for _, ex := range s.Exits {
 		_, n := ex.Checked["NE("+nameD+`,const:"")`]
 		_, u := ex.Checked["EQ("+nameD+`,const:"")`]
+		if entry != nil {
+			// L does not test the name and runs only where P has found it non-empty: every exit is a "plugin named" exit
+			n, u = true, false
+		}
 		if n == u {
 			c.Bad("plugin/lookup-results", rule, w.InstrPos(ex.Ret), "this success-capable exit of the lookup helper is not decided by the test of the plugin name against \"\"; facts: "+summarizeLabels(ex.Checked, 8))
 			return false
@@ -917,6 +923,11 @@ func c02Boundary(c *Ctx, ro *c02Roles) bool {
 		return false
 	}
 	c.OK("plugin/lookup-results", rule, w.FnPos(ro.L))
+	if entry != nil {
+		// the precondition edges of P are the tests of the name P hands in, as on the reference tree
+		ro.named, ro.unnamed = entry.named, entry.unnamed
+		return true
+	}
 	// the precondition edges of P: tests of the handed-back plugin object against nil, of the handed-back name against ""
 	plug, name := map[ssa.Value]bool{}, map[ssa.Value]bool{}
 	for v := range c02SlotReaders(w, ro.lcall, ro.pluginSlot) {
@@ -949,6 +960,104 @@ func c02Boundary(c *Ctx, ro *c02Roles) bool {
 		}
 	}
 	return true
+}
+
+// ---------- the lookup helper cut INSIDE the name test (fourth pass) -----------------------------------------------------
+//
+// "Extract helper" has a whole class of cuts. The boundary above follows the cut AROUND the name test (`if name != "" {…}`
+// moves into L together with its test: L answers for both sides and P reads the side off what L hands back). The other
+// natural cut is the BODY of the named branch: the test stays in P, L is only ever entered on its true side and has no
+// "no plugin named" side at all:
+//
+//	P:  name, err := getVerificationPlugin(…)            L(name, …):  minVersion, manager nil, Manager.Get(name), GetMetadata,
+//	    var plugin VerifyPlugin; var caps []Capability                 semver, min version, filter, len(caps) == 0
+//	    if name != "" { plugin, caps, err = L(name, …); if err != nil { return err } }
+//
+// c02NamedEntry recognises that cut by what makes it mean the same as the reference:
+//   - the name L hands to Manager.Get is L's own parameter (the SSA value, through conversions) and L itself does not test it
+//     against "" (a helper that tests it again is the other cut and is decided there);
+//   - in P, the argument a in that position is tested against "" and, once the edges `a != ""` are removed, the call of L is
+//     out of reach: L runs exactly under "the signature names a plugin", spelled on the caller's value. The engine's own
+//     composition rule (a callee's parameter IS the caller's argument) makes every fact all success exits of L pass a fact of
+//     every success of P through the call's `err == nil` edge (plugin/lookup-error), i.e. of every success with a plugin
+//     named: the clause as stated on the reference tree. With no plugin named L does not run and nothing of L applies, as on
+//     the reference tree nothing of the `if` body applies.
+//
+// The precondition edges of P are then the tests of a against "" themselves — the very edges the reference tree has — and
+// every success-capable exit of L is a "plugin named" exit (plugin/lookup-results requires of each what it requires of the
+// named exits of the other cut: the object of Manager.Get, with GetMetadata invoked on it, is what is handed back).
+// What P holds on the unnamed side (the zero plugin variable, the nil list) is P's own code and is judged by the routing
+// rules on P's graph (routing/declared-capabilities enumerates every value the routed list can be, on both sides).
+type c02Entry struct {
+	arg            ssa.Value        // what P hands in as the name
+	named, unnamed map[edgeKey]bool // edges of P: arg != "" / arg == ""
+}
+
+func c02NamedEntry(ro *c02Roles) *c02Entry {
+	if ro.L == ro.P || ro.lcall == nil {
+		return nil
+	}
+	w := ro.w
+	nameV := ro.getCall.Call.Args[1]
+	par, ok := c02Unconv(nameV).(*ssa.Parameter)
+	if !ok || par.Parent() != ro.L {
+		return nil
+	}
+	idx := -1
+	for i, q := range ro.L.Params {
+		if q == par {
+			idx = i
+		}
+	}
+	if idx < 0 || idx >= len(ro.lcall.Call.Args) {
+		return nil
+	}
+	// L does not decide the name itself (neither by label nor on the value)
+	nameD := desc(nameV)
+	lfi := w.Info(ro.L)
+	if len(lfi.edgesMatching(func(l string, _ *ssa.If, _ bool) bool {
+		return l == "NE("+nameD+`,const:"")` || l == "EQ("+nameD+`,const:"")`
+	})) > 0 {
+		return nil
+	}
+	own := c02Conversions(par)
+	for _, b := range ro.L.Blocks {
+		if iff, isIf := blockTerm(b).(*ssa.If); isIf {
+			if _, says := c02EdgeSays(iff.Cond, true, own, c02IsEmptyString); says {
+				return nil
+			}
+		}
+	}
+	en := &c02Entry{arg: ro.lcall.Call.Args[idx], named: map[edgeKey]bool{}, unnamed: map[edgeKey]bool{}}
+	argD := desc(en.arg)
+	pfi := w.Info(ro.P)
+	// by label (the engine's normal forms of the test: `len(a) > 0`, `a == ""` with the sides swapped, …) when a is a value
+	// in its own right; a value read from memory is only matched as the very SSA value that is handed in (two reads of one
+	// place print alike and need not be equal)
+	if ld, isLoad := c02Unconv(en.arg).(*ssa.UnOp); !isLoad || ld.Op != token.MUL {
+		en.named = pfi.edgesMatching(func(l string, _ *ssa.If, _ bool) bool { return l == "NE("+argD+`,const:"")` })
+		en.unnamed = pfi.edgesMatching(func(l string, _ *ssa.If, _ bool) bool { return l == "EQ("+argD+`,const:"")` })
+	}
+	vals := c02Conversions(c02Unconv(en.arg))
+	for _, b := range ro.P.Blocks {
+		iff, isIf := blockTerm(b).(*ssa.If)
+		if !isIf || len(b.Succs) != 2 {
+			continue
+		}
+		for j := 0; j < 2; j++ {
+			if empty, says := c02EdgeSays(iff.Cond, j == 0, vals, c02IsEmptyString); says {
+				if empty {
+					en.unnamed[edgeKey{b.Index, j}] = true
+				} else {
+					en.named[edgeKey{b.Index, j}] = true
+				}
+			}
+		}
+	}
+	if len(en.named) == 0 || ro.lcall.Block().Index == 0 || pfi.reachHit(entryState(), en.named, blocksOf(ro.lcall)) {
+		return nil // L can be entered without the name having been found non-empty: not this cut
+	}
+	return en
 }
 
 // c02SlotValue: what the exit ret, with the operands rs, delivers in the slot; nil if that cannot be told.
